@@ -382,6 +382,9 @@ SHAPE_ROLES = {"rvm": ["reg", "vvvv", "rm"], "rm": ["reg", "rm"], "rvmi": ["reg"
                "lrm": ["reg", "rm"], "lmr": ["rm", "reg"], "lrmi": ["reg", "rm", "imm"], "lop": None, "larith": ["rm", "reg"], "lrot": ["rm", "imm"], "larithi8": ["rm", "imm"], "lopreg": ["opc"], "larithrm": ["reg", "rm"], "lmov": ["rm", "reg"], "lmovrm": ["reg", "rm"], "mr": ["rm", "reg"], "mri": ["rm", "reg", "imm"], "llea": ["reg", "rm"], "lrel": ["rel"], "larithimm": ["rm", "imm"], "laccimm": ["none", "imm"], "lrotx": ["rm", "none"], "lm": ["rm"], "lmovri": ["opc", "imm"], "lmovrmi": ["rm", "imm"], "lmovmi": ["rm", "imm"], "larithmi": ["rm", "imm"]}
 
 
+COVER_NAMES = {}      # shape -> instruction names with an entry in that chunk (filled by class_rows_lean)
+
+
 def class_rows_lean(kept, rows, chunk=96):
     """kept: [(form, roles)], rows: {name: [id, enc, mainOp hex, altOp hex, iflags hex, aflags hex]} -> Lean source"""
     out = ["/- GENERATED by tools/gen_c01.py from db/isa_x86.json and the compiled instruction tables (harness `row`). -/",
@@ -454,6 +457,7 @@ def class_rows_lean(kept, rows, chunk=96):
                 entries.append('  { name := "%s", enc := %d, mainOp := 0x%s#32, iflags := 0x%s#32, aflags := 0x%s#32, altOp := 0x%s#32, kinds := [%s],\n    rule := %s }' % (
                     f["name"], int(r[1]), r[2], r[4], r[5], r[3], ", ".join(KIND_LEAN[k] for k in combo), rule_lean(line)))
         counts[shape] = len(entries)
+        COVER_NAMES[shape] = set(en.split('"')[1] for en in entries)
         nch = 0
         for i in range(0, len(entries), chunk):
             out.append("def %sEntries%d : List Entry := [\n%s]\n" % (shape, nch, ",\n".join(entries[i:i + chunk])))
